@@ -69,7 +69,7 @@ def run(ctx, prog, res):
     r2 = res.rule("C12.R2", "validate(s) is the success of the very parser call the constructor uses on its expression argument")
     v = prog.require_fn("opening_hours_py::validate")
     sh = flow.shape(v, 0)
-    r2.check(sh == "Result::is_ok(OpeningHours::parse(p1))", {"fn": v.id, "returns": sh}, "C12.R2:validate", "validate returns %s" % sh, lib.where_of(v))
+    r2.check(flow.returns_is_ok_of(prog, v, "opening_hours::opening_hours::OpeningHours::parse"), {"fn": v.id, "returns": "true iff OpeningHours::parse(arg) is Ok"}, "C12.R2:validate", "validate is not `OpeningHours::parse(arg) is Ok`: %s" % sh, lib.where_of(v))
     parses = [t for _, t in new.calls() if flow.call_name(t) == "opening_hours::opening_hours::OpeningHours::parse"]
     ok = len(parses) == 1 and flow.root_params(new, parses[0]["args"][0]) == {1} and not flow.origin_calls(new, parses[0]["args"][0])
     r2.check(ok, {"fn": new.id, "parses": "OpeningHours::parse(oh)"}, "C12.R2:new", "the constructor does not parse its unmodified expression argument with OpeningHours::parse", lib.where_of(new))
@@ -185,7 +185,7 @@ def run(ctx, prog, res):
     r10 = res.rule("C12.R10", "__str__ is the core's Display of the expression and __repr__ wraps exactly that text")
     f = prog.require_fn(PYO + "__str__")
     sh = flow.shape(f, 0)
-    r10.check(sh == "::to_string(p1.inner)", {"fn": f.id, "returns": sh}, "C12.R10:str", "__str__ returns %s" % sh, lib.where_of(f))
+    r10.check(flow.displays_only(f, 0), {"fn": f.id, "returns": "Display text of self.inner"}, "C12.R10:str", "__str__ returns %s" % sh, lib.where_of(f))
     f = prog.require_fn(PYO + "__repr__")
     sh = flow.shape(f, 0)
     r10.check(re.search(r"array\(Argument::new_debug\(::to_string\(p1\.inner\)\)\)", sh) is not None, {"fn": f.id, "returns": sh}, "C12.R10:repr", "__repr__ returns %s" % sh, lib.where_of(f))
